@@ -793,6 +793,11 @@ def u5(rep, src):
             return out
         if p["k"] == "wild":
             return set(cases)
+        if p["k"] == "binary" and p.get("op") == "|":  # a pattern inside matches!(..) is parsed as an expression
+            l, r = pat_cases(p["lhs"]), pat_cases(p["rhs"])
+            return None if l is None or r is None else l | r
+        if p["k"] == "paren":
+            return pat_cases(p["e"])
         if p.get("_none"):
             return {"None"}
         t = show(p, 0).replace(" ", "")
@@ -803,6 +808,10 @@ def u5(rep, src):
         for v in ("Unique", "PrimaryKey", "ForeignKey"):
             if t == "Some(Constraint::%s)" % v:
                 return {v}
+        m = re.match(r"^Some\(((Constraint::\w+\|?)+)\)$", t)  # Some(Constraint::Unique | Constraint::PrimaryKey)
+        if m:
+            vs = {x.split("::")[1] for x in m.group(1).split("|")}
+            return vs if vs <= {"Unique", "PrimaryKey", "ForeignKey"} else None
         return None
 
     arms = None
